@@ -189,6 +189,13 @@ class PropertyRun:
                    if r.get("driver_error")]
         for m in inconcl:
             print(f"INCONCLUSIVE property={self.prop} {m}")
+        transient = [t for r in self.bounded for t in r.get("transient", [])]
+        for t in transient[:5]:
+            print(f"NOTE property={self.prop} transient infrastructure error retried and passed: {t['contract'][:80]} "
+                  f"{json.dumps(t['params'], default=str)[:120]} ({t['first_error'][:120]})")
+        if transient:
+            self.notes.append(f"{len(transient)} case(s) hit a numba infrastructure error (cache race) that did not "
+                              f"reproduce on an immediate retry; first: {transient[0]['first_error'][:200]}")
         # de-duplicate violation lines per replay file
         printed = set()
         for vid, (rp, suffix) in viol_lines:
